@@ -1,6 +1,7 @@
 import Driver.Common
 import ScionTime.Model.Sample
 import ScionTime.Model.Multipath
+import ScionTime.Model.Pather
 open Driver ScionTime.Sample ScionTime.Multipath
 
 /-- ops:
@@ -126,8 +127,85 @@ def fmtRound (out : RoundOut) (used : Nat) : String :=
 
 /-- State of the driver: the path table of the Pather of the current history (`pa.set`), paths
     identified by their position in that table. Every `pa.round` is
-    `refclkRound pathsCopy` (Model/Multipath.lean) on a memory holding just the table. -/
-abbrev St := Option (List Path)
+    `refclkRound pathsCopy` (Model/Multipath.lean) on a memory holding just the table.
+    `pd.*`: the Pather behind the scripted daemon (Model/Pather.lean): its table and the configured
+    destination list; `pd.round` is the same `refclkRound pathsCopy` on what `Paths(a)` offers. -/
+structure St where
+  pa : Option (List Path) := none
+  pd : Option (ScionTime.Pather.Table × List Nat) := none
+
+/-- the model of `update` the driver runs: the repaired code (a repeated destination IA is
+    looked up and entered once) -/
+def patherDedup : Bool := true
+
+def iaLocal : Nat := 281474976710656 + 0xff0000000111
+def iaOfName : String → Option Nat
+  | "a" => some (281474976710656 + 0xff0000000112)
+  | "b" => some (281474976710656 + 0xff0000000113)
+  | "c" => some (2 * 281474976710656 + 0xff0000000211)
+  | "w" => some 281474976710656
+  | _ => none
+
+def canonNat? (x : String) : Option Nat :=
+  match x.toNat? with
+  | some j => if toString j = x then some j else none
+  | none => none
+
+/-- `a:0.1.2;b:e;c:` -> per destination: error or the list of paths (socket index, fingerprint q<j>) -/
+def parseAns? (s : String) : Option (List (Nat × Option (List Path))) :=
+  let parts := s.splitOn ";"
+  let r := parts.mapM fun part =>
+    match part.splitOn ":" with
+    | [n, spec] =>
+      match iaOfName n with
+      | none => none
+      | some ia =>
+        if n = "w" then none
+        else if spec = "e" then some (ia, none)
+        else if spec = "" then some (ia, some [])
+        else
+          match (spec.splitOn ".").mapM canonNat? with
+          | some js => if js.all (· < 16) then some (ia, some (js.map fun j => (j, s!"q{j}"))) else none
+          | none => none
+    | _ => none
+  match r with
+  | some l =>
+    if (l.map (·.1)).eraseDups.length = l.length ∧ ["a", "b", "c"].all (fun n => (iaOfName n).any fun ia => l.any (·.1 == ia))
+    then some l else none
+  | none => none
+
+def daemonOf (lia : Bool) (l : List (Nat × Option (List Path))) : ScionTime.Pather.Daemon :=
+  { localIA := if lia then some iaLocal else none
+    paths := fun ia => match l.find? (·.1 == ia) with
+                       | some (_, some ps) => some ps
+                       | _ => none }
+
+def fmtPd (t : ScionTime.Pather.Table) : String :=
+  let lia := if t.localIA = iaLocal then "1" else if t.localIA = 0 then "0" else "other"
+  let one (n : String) : String :=
+    match (iaOfName n).bind t.pathsOf with
+    | none => s!" {n}=-"
+    | some ps => s!" {n}=" ++ fmtNatList (ps.map (·.1))
+  s!"ok lia={lia}" ++ one "a" ++ one "b" ++ one "c"
+
+def pdUpdate (st : St) (t : ScionTime.Pather.Table) (dsts : List Nat) (lia ans : String) : St × String :=
+  match parseBool? lia, parseAns? ans with
+  | some lia, some l =>
+    match ScionTime.Pather.update patherDedup t (daemonOf lia l) dsts with
+    | .panicWildcard => ({ st with pd := none }, "panic " ++ panicClass "unexpected destination IA: wildcard.")
+    | .done t' => ({ st with pd := some (t', dsts) }, fmtPd t')
+  | _, _ => (st, "bad-op")
+
+/-- one round of the reference clock on `table` (what `Paths` offers): answer and the table afterwards -/
+def roundOn (table : List Path) (cs : List Client) (s : Stream) (succ : List (Option Int)) : String × List Path :=
+  let (out, m') := refclkRound pathsCopy ftmLocal f11Fixed f12Fixed [table] 0 cs false s succ
+  let table' := m'.getD 0 []
+  let used : Nat :=
+    match assignFrom (stickyLoop f11Fixed cs table) false s with
+    | (.ok _ r, _) => s.length - r.length
+    | (.errNoPath r, _) => s.length - r.length
+    | _ => 0
+  (fmtRound out used, table')
 
 def step (st : St) (toks : List String) : St × String :=
   match toks with
@@ -135,7 +213,7 @@ def step (st : St) (toks : List String) : St × String :=
     match (kv? [ps] "ps").bind parseList? with
     | some ps =>
       if ps.length > 16 then (st, "bad-op")
-      else (some (offeredPaths (ps.map fpOfTok)), s!"ok n={ps.length}")
+      else ({ st with pa := some (offeredPaths (ps.map fpOfTok)) }, s!"ok n={ps.length}")
     | none => (st, "bad-op")
   | "pa.round" :: rest =>
     match kv? rest "cs", kv? rest "s", kv? rest "succ" with
@@ -143,22 +221,46 @@ def step (st : St) (toks : List String) : St × String :=
       match (parseList? cs).bind (·.mapM parseClient?), parseHex? hs, parseSuccs? ((parseList? cs).bind (·.mapM parseClient?)) succ with
       | some cs, some s, some succ =>
         if succ.length ≠ cs.length ∨ rest.length ≠ 3 then (st, "bad-op") else
-        match st with
+        match st.pa with
         | none => (st, "err nopather")
         | some table =>
-          let (out, m') := refclkRound pathsCopy ftmLocal f11Fixed f12Fixed [table] 0 cs false s succ
-          let table' := m'.getD 0 []
-          let used : Nat :=
-            match assignFrom (stickyLoop f11Fixed cs table) false s with
-            | (.ok _ r, _) => s.length - r.length
-            | (.errNoPath r, _) => s.length - r.length
-            | _ => 0
+          let (ans, table') := roundOn table cs s succ
           let ix (l : List Path) := fmtNatList (l.map (·.1))
-          let ans := fmtRound out used
-          if ans.startsWith "panic" then (some table', ans)
-          else (some table', ans ++ s!" offered={ix table} held={ix table'}")
+          if ans.startsWith "panic" then ({ st with pa := some table' }, ans)
+          else ({ st with pa := some table' }, ans ++ s!" offered={ix table} held={ix table'}")
+      | _, _, _ => (st, "bad-op")
+    | _, _, _ => (st, "bad-op")
+  | "pd.start" :: rest =>
+    match kv? rest "via", kv? rest "dst", kv? rest "lia", kv? rest "ans" with
+    | some via, some dst, some lia, some ans =>
+      if rest.length ≠ 4 ∨ ¬ (via = "start" ∨ via = "hook") then (st, "bad-op") else
+      match (parseList? dst).bind (·.mapM iaOfName) with
+      | some dsts => pdUpdate { st with pd := none } {} dsts lia ans
+      | none => (st, "bad-op")
+    | _, _, _, _ => (st, "bad-op")
+  | "pd.refresh" :: rest =>
+    match kv? rest "lia", kv? rest "ans" with
+    | some lia, some ans =>
+      if rest.length ≠ 2 then (st, "bad-op") else
+      match st.pd with
+      | none => (st, "err nopather")
+      | some (t, dsts) => pdUpdate st t dsts lia ans
+    | _, _ => (st, "bad-op")
+  | "pd.round" :: rest =>
+    match kv? rest "cs", kv? rest "s", kv? rest "succ" with
+    | some cs, some hs, some succ =>
+      match (parseList? cs).bind (·.mapM parseClient?), parseHex? hs, parseSuccs? ((parseList? cs).bind (·.mapM parseClient?)) succ with
+      | some cs, some s, some succ =>
+        if succ.length ≠ cs.length ∨ rest.length ≠ 3 then (st, "bad-op") else
+        match st.pd with
+        | none => (st, "err nopather")
+        | some (t, _) =>
+          let table := ((iaOfName "a").bind t.pathsOf).getD []
+          let (ans, _) := roundOn table cs s succ
+          if ans.startsWith "panic" then (st, ans)
+          else (st, ans ++ s!" offered={fmtNatList (table.map (·.1))}")
       | _, _, _ => (st, "bad-op")
     | _, _, _ => (st, "bad-op")
   | _ => (st, stepPure toks)
 
-def main : IO Unit := run (none : St) step
+def main : IO Unit := run ({} : St) step
